@@ -65,7 +65,8 @@ pub fn gen_entry(prop: &str, seed: u64, idx: usize, attempt: u64) -> Vec<(String
         "C25" => {
             // reference programs: the textual order of the statements is irrelevant (access groups
             // are ordered by number), so it is shuffled
-            let mut p = e3_core::pgen::gen_refs(&mut sim);
+            let shared = sim.flip("shared_consumer", 1, 8);
+            let mut p = e3_core::pgen::gen_refs(&mut sim, shared);
             let n = p.emit_order.len();
             for i in (1..n).rev() {
                 let j = sim.choose("shuffle", 0, i as u64) as usize;
@@ -99,6 +100,13 @@ pub fn generate(prop: &str, seed: u64, tier: &str, programs: Option<usize>) -> C
         let mut attempt = 0;
         loop {
             let mut vs = gen_entry(prop, seed, idx, attempt);
+            // E3_SKIP_KINDS=kind[,kind]: leave out program kinds (used by sensitivity runs to keep a
+            // known finding's dedicated program kind out of the way; never set by the registered checks)
+            let skip_kind = std::env::var("E3_SKIP_KINDS").ok().is_some_and(|s| s.split(',').any(|k| k == vs[0].1.kind));
+            if skip_kind && attempt < 20 {
+                attempt += 1;
+                continue;
+            }
             let base_bad = unsupported_shape(&vs[0].1);
             if base_bad.is_some() && attempt < 20 {
                 attempt += 1;
